@@ -51,7 +51,7 @@ const RUNTIME_ITEMS: [(&'static str, &'static str); 4] = [
     ("P", "function(a){return typeof a==='function'?a:()=>{}}"),
 ];
 
-const EXTRA_RUNTIME_ITEMS: [(&'static str, &'static str); 3] = [
+const EXTRA_RUNTIME_ITEMS: [(&'static str, &'static str); 4] = [
     (
         "a",
         "function(a){for(var i=0;i<a.length;i++)if(a[i])return a}",
@@ -65,6 +65,11 @@ const EXTRA_RUNTIME_ITEMS: [(&'static str, &'static str); 3] = [
     (
         "c",
         "function(a){var r={};for(var k in a)r[k]=a[k];return r}",
+    ),
+    // the operand of an array spread as `concat` takes it (a string spreads into its characters)
+    (
+        "d",
+        "function(a){return typeof a==='string'?Array.from(a):a}",
     ),
 ];
 
